@@ -235,8 +235,15 @@ def check_style_precedence(ctx):
   ctx.check(nested_guard, "PRI-style", f"{st.qualname}|nested styling keeps earlier nested values", ctx.where(st.module, st.node), "guarded by `is None`", "nested styling overwrites earlier values")
   mc = ix.func(f"{EL}:StylingElement.ParsingContext.merge_chained_styles")
   t = unparse(mc.node)
-  ctx.check("style_refs.pop()" in t and ".setdefault(" in t and "self.merge_chained_styles(" in t, "PRI-style", f"{mc.qualname}|chained references: last reference wins, own values win",
-            ctx.where(mc.module, mc.node), "pop() from the end + setdefault, recursive", "chained referential styling no longer pops references last-first with setdefault (priority of later references / own values lost)")
+  # (the order of references and the precedence of own values are decided by FIN-chain, by interpretation on sample style graphs; this shape
+  #  is only consulted when that interpretation is not possible)
+  chain_decided = any(o.rule == "FIN-chain" for o in ctx.obs)
+  if chain_decided:
+    ctx.ok("PRI-style", f"{mc.qualname}|chained references: last reference wins, own values win", ctx.where(mc.module, mc.node), "decided by FIN-chain on sample style graphs")
+  elif "style_refs.pop()" in t and ".setdefault(" in t and "self.merge_chained_styles(" in t:
+    ctx.ok("PRI-style", f"{mc.qualname}|chained references: last reference wins, own values win", ctx.where(mc.module, mc.node), "pops references last-first with setdefault")
+  else:
+    ctx.undecide("PRI-style", f"{mc.qualname}: neither interpreted (FIN-chain) nor of the reference shape")
   # chained references are merged only after every <style> of the <styling> element is registered (forward references)
   sx = ix.func(f"{EL}:StylingElement.from_xml")
   reg_loops = [lp for lp in own_nodes(sx.node) if isinstance(lp, ast.For) and any(isinstance(c, ast.Call) and unparse(c.func).endswith("StyleElement.from_xml") for c in own_nodes(lp))]
